@@ -155,7 +155,7 @@ pub fn record(args: &Args) {
                     _ => {}
                 }
             });
-            let store = Arc::new(RecStore { inner: InMemoryStore::new(), hook });
+            let store = Arc::new(RecStore::new(InMemoryStore::new(), hook));
             let events = Events::new();
             shared.lock().unwrap().sub = Some(events.subscribe());
             let wsamp = Duration::from_secs((k - 1) * DELTA + DELTA / 2);
@@ -404,7 +404,7 @@ pub fn replay(args: &Args) {
                     _ => {}
                 }
             });
-            let store = Arc::new(RecStore { inner: InMemoryStore::new(), hook });
+            let store = Arc::new(RecStore::new(InMemoryStore::new(), hook));
             let events = Events::new();
             shared.lock().unwrap().sub = Some(events.subscribe());
             let wsamp = Duration::from_secs((k - 1) * DELTA + DELTA / 2);
